@@ -241,3 +241,11 @@ impl SharedTaskRunner {
         }
     }
 }
+
+/// Verification hook (feature `verif`): the pool behind this runner, for read-only observation.
+#[cfg(feature = "verif")]
+impl SharedTaskRunner {
+    pub(crate) fn verif_pool(&self) -> &ThreadPool {
+        &self.inner.pool
+    }
+}
